@@ -94,6 +94,7 @@ pub fn p_entry(t: &mut Toks) -> R<Entry> {
     Ok(Entry { view, contract, key, n, res })
 }
 
+#[derive(Clone)]
 pub struct Cost {
     pub dflt: u64,
     pub over: Vec<(u8, u64)>,
@@ -115,6 +116,8 @@ pub struct VmCase {
     pub cost: Cost,
     pub limit: u64,
     pub max_breadth: usize,
+    /// `GasLimit::per_yield` (has no observable effect; varied by the `o_yield` oracle only)
+    pub per_yield: u64,
 }
 
 pub fn p_case(t: &mut Toks) -> R<VmCase> {
@@ -170,7 +173,7 @@ pub fn p_case(t: &mut Toks) -> R<VmCase> {
         repeat,
         cache: Default::default(),
     };
-    Ok(VmCase { mode, prog, vm, index, sols, entries: Arc::new(entries), cost: Cost { dflt, over }, limit, max_breadth })
+    Ok(VmCase { mode, prog, vm, index, sols, entries: Arc::new(entries), cost: Cost { dflt, over }, limit, max_breadth, per_yield: GasLimit::DEFAULT_PER_YIELD })
 }
 
 pub fn show_op_err<E>(e: &OpError<E>, st: impl Fn(&E) -> String) -> String {
@@ -309,7 +312,7 @@ pub fn run_case(c: &mut VmCase) -> String {
     let access = Access::new(Arc::new(c.sols.clone()), c.index as u16);
     let cost = &c.cost;
     let costf = move |op: &Op| cost.of(op);
-    let limit = GasLimit { per_yield: GasLimit::DEFAULT_PER_YIELD, total: c.limit };
+    let limit = GasLimit { per_yield: c.per_yield, total: c.limit };
     match c.mode.as_str() {
         "eval" => match c.vm.eval_ops(&ops, access, &state, &costf, limit) {
             Ok(b) => format!("ok {b}"),
